@@ -9,6 +9,7 @@ K_N1                  == <<"instant", "long", "rdv", "instant">>                
 K_2long_rdv           == <<"long", "long", "rdv", "rdv", "rdv", "instant", "instant">>  \* N = 3, T = 7: two slow tasks, one worker left
 K_N2slow              == <<"instant", "long", "instant", "instant", "instant">>     \* N = 2, T = 5: one slow task, the rest still runs
 K_N3slow2             == <<"long", "instant", "long", "instant", "instant", "instant">> \* N = 3, T = 6: two slow tasks, one worker left
+K_hist                == <<"panic", "instant", "panic", "panic", "rdv", "rdv">>            \* N = 2, T = 6: failing jobs, then a probe of N
 K_empty               == <<>>                                                       \* T = 0
 
 \* refutation targets: used as INVARIANT in *_reach.cfg, TLC must report them violated (reachability witnesses)
